@@ -146,9 +146,13 @@ Definition elem (r : reg) (fs : list cform) (sl : list script) : reg * list chun
        ++ match fs with [] => [] | _ => [KClassAttr fs] end
        ++ map KCallAttr sl ++ [KClose]).
 
+(* runtime.go WithNonce: v.nonce = nonce on the context value every derived context shares *)
+Definition set_nonce (r : reg) (n : bytes) : reg := mkReg (ss r) (hs r) n.
+
 Fixpoint step (r : reg) (o : op) {struct o} : reg * list chunk :=
   match o with
   | OText t => (r, [KText t])
+  | ONonce n => (set_nonce r n, [])
   | OScriptItems l => let '(r', n) := emit_new sid r l in (r', [KScriptTag (nonce r) n])
   | ORender s =>
       let '(r', n) := emit_new sid r [s] in
